@@ -88,12 +88,16 @@ func checkC02(c *core.Ctx) {
 	c.Rule("random sequences of chords and rests (rests leading, inner, consecutive up to 5, trailing; 1..4 fractions per instance with numerators 1..64 and denominators incl. primes and non-divisors of the resolution, sometimes 5..9 fractions whose denominators multiply beyond 64 bits; text, lyric and marker metadata anywhere; repeated chords; settings on rests; 1..4 tracks), " +
 		"a deterministic list of exactly-halfway values and a list of adversarial near-halfway values; every note-on must sit at its instance start and every note-off at start+round(T*sum) computed in exact rationals (either neighbour at exact halves, tracked as a set), nothing may sound in a rest, releases precede strikes of the same key; " +
 		"non-trivial = piece with a rest, an instance with >= 2 fractions and a denominator not dividing T; distinct by the sequence of (kind, exact duration)")
-	c.Assume("math/big exact rationals", "smfdec", "T is read from the file header", "instances shorter than 2 ticks are not generated (a zero-length chord has no observable onset group)")
+	c.Assume("math/big exact rationals", "smfdec", "T is read from the file header", "instances of 0..2 ticks are generated for single-track files only (chords are told apart by runs of note-ons there)")
 
 	c.Stream("random", c.N(5000, 120000), func(i int, r *rand.Rand) {
 		n := 1 + r.Intn(c.N(14, 40))
 		var p model.Piece
 		restRun := 0
+		// instances of (almost) no duration only in single-track cases: with several tracks the notes of a
+		// zero-tick chord cannot be told from its neighbours'
+		multi := r.Intn(4) == 0
+		tiny := !multi
 		var prev *model.ChordSpec
 		for j := 0; j < n; j++ {
 			in := model.Instance{}
@@ -121,7 +125,9 @@ func checkC02(c *core.Ctx) {
 			} else {
 				restRun++
 			}
-			if r.Intn(6) == 0 {
+			if tiny && r.Intn(10) == 0 {
+				in.Values = append([]model.Frac(nil), model.TinyValues[r.Intn(len(model.TinyValues))]...)
+			} else if r.Intn(6) == 0 {
 				in.Values = append([]model.Frac(nil), model.HalfwayValues[r.Intn(len(model.HalfwayValues))]...)
 			} else if r.Intn(12) == 0 {
 				in.Values = model.ManyFractions(r)
@@ -155,7 +161,7 @@ func checkC02(c *core.Ctx) {
 			return
 		}
 		var f model.Flags
-		if r.Intn(4) == 0 {
+		if multi {
 			f.Track = 1 + r.Intn(4)
 		}
 		if judgeTiming(c, "random", i, p, f, randWriteOpts(r), "") && c.WantSample() {
